@@ -34,7 +34,7 @@ def gen_assembly(rng, tpf_ok):
             else:
                 st = rng.randint(1, 10 ** rng.randint(0, 12))
                 ln = rng.randint(0, 10 ** rng.randint(0, 11))
-                tags = [rng.choice(["Painted", "Cut", "T%d" % rng.randint(0, 9), "Hap1", "X", "\u03b1"]) for _ in range(rng.choice([0, 0, 1, 2, 3]))]
+                tags = [rng.choice(["Painted", "Cut", "T%d" % rng.randint(0, 9), "Hap1", "X", "\u03b1"]) for _ in range(rng.choice([0, 0, 1, 2, 3, 4, 6]))]
                 rows.append(["F", gen_name(rng), st, st + ln, rng.choice([1, -1] if tpf_ok else [1, -1, 0]), tags])
         if tpf_ok and rows[0][0] == "G":
             rows.insert(0, ["F", "q", 1, 2, 1, []])
